@@ -7,6 +7,7 @@ import (
 	"go/constant"
 	"go/token"
 	"go/types"
+	"os"
 	"regexp"
 	"sort"
 	"strings"
@@ -565,7 +566,12 @@ func (e *Engine) load(st *State, l Loc) Val {
 	case VarLoc:
 		v, ok := st.vals[x.C]
 		if !ok {
-			panic(fmt.Sprintf("load: cell %s has no value", x.C.Name))
+			var names []string
+			for c := range st.vals {
+				names = append(names, fmt.Sprintf("%s#%d", c.Name, c.id))
+			}
+			sort.Strings(names)
+			panic(fmt.Sprintf("load: cell %s#%d has no value; live: %v", x.C.Name, x.C.id, names))
 		}
 		if b, ok := v.(BoxedArr); ok {
 			return ArrVal{Sh: b.Sh, L: e.heapRows(st, b.Sh.Elem, b.Ref)}
@@ -686,6 +692,12 @@ func sameLoc(a, b Loc) bool {
 // iteVal merges two values of the same shape; ok=false if they cannot be merged.
 func (e *Engine) iteVal(c *Term, a, b Val) (Val, bool) {
 	switch x := a.(type) {
+	case Scalar:
+		y, ok := b.(Scalar)
+		if !ok || x.T.Sort != y.T.Sort {
+			return nil, false
+		}
+		return Scalar{e.C.Ite(c, x.T, y.T), x.Typ}, true
 	case PtrVal:
 		y, ok := b.(PtrVal)
 		if !ok {
@@ -805,6 +817,9 @@ func (e *Engine) join(base *State, sts []*State) []*State {
 			}
 			nv, ok := e.iteValScalarAware(guards[i], o, v)
 			if !ok {
+				if os.Getenv("GOVC_DEBUG") != "" {
+					fmt.Fprintf(os.Stderr, "join: cannot merge cell %s#%d: %T vs %T\n", c.Name, c.id, o, v)
+				}
 				return sts
 			}
 			v = nv
